@@ -14,6 +14,11 @@ def classify(gens, n=None, record=False):
         from paulie import RecordGraph
         rec = RecordGraph()
         c.set_record(rec)
+    return read_class(c), c, rec
+
+
+def read_class(c):
+    """everything the classification of this collection object exposes now, as text"""
     out = {"gens": [str(g) for g in c.get()]}
     out["algebra"] = c.get_algebra()
     out["dim"] = c.get_dla_dim()
@@ -23,4 +28,99 @@ def classify(gens, n=None, record=False):
     out["vertices"] = [str(v) for v in c.get_canonic_vertices()]
     out["dependents"] = [str(v) for v in c.get_dependents()]
     out["independents"] = [str(v) for v in c.get_independents()]
-    return out, c, rec
+    return out
+
+
+def apply_step(c, st):
+    """one in-place edit of a collection through the public interface"""
+    from paulie import PauliString
+    P = lambda s: PauliString(pauli_str=s)  # noqa: E731
+    if st[0] == "append":
+        c.append(P(st[1]))
+    elif st[0] == "remove":
+        c.remove(P(st[1]))
+    elif st[0] == "replace":
+        c.replace(P(st[1]), P(st[2]))
+    elif st[0] == "contract":
+        c.contract(P(st[1]), P(st[2]))
+    elif st[0] == "insert":
+        c.insert(st[1], P(st[2]))
+    elif st[0] == "del":
+        del c[st[1]]
+    elif st[0] == "setitem":
+        c[st[1]] = P(st[2])
+    else:
+        raise ValueError(st[0])
+
+
+def gen_steps(rng, n, g, lo=1, hi=3, setitem=False):
+    """a random in-place editing history of the collection g and the strings it should hold afterwards"""
+    from harness import gens as G
+    steps, cur = [], list(dict.fromkeys(g))
+    for _ in range(rng.randint(lo, hi)):
+        r = rng.random()
+        if r < 0.3 or len(cur) < 2:
+            x = G.uniform(rng, n); steps.append(["append", x])
+            if x not in cur:
+                cur.append(x)
+        elif r < 0.45:
+            x = rng.choice(cur); steps.append(["remove", x]); cur.remove(x)
+        elif r < 0.6:
+            x = rng.choice(cur); y = G.uniform(rng, n)
+            if y not in cur:
+                steps.append(["replace", x, y]); cur[cur.index(x)] = y
+        elif r < 0.72:
+            pairs = [(a, b) for a in cur for b in cur if a != b and G.anti(a, b) and G.mul(a, b) not in cur]
+            if pairs:
+                a, b = rng.choice(pairs); steps.append(["contract", a, b]); cur[cur.index(a)] = G.mul(a, b)
+        elif r < 0.92:
+            x = G.uniform(rng, n)
+            if x not in cur:
+                i = rng.randint(0, len(cur)); steps.append(["insert", i, x]); cur.insert(i, x)
+        else:
+            i = rng.randrange(len(cur)); steps.append(["del", i]); cur.pop(i)
+    return steps, cur
+
+
+def classify_history(gens, steps):
+    """one collection object: classify, then after every in-place edit classify again"""
+    c = _coll(gens)
+    out = [read_class(c)]
+    for st in steps:
+        apply_step(c, st)
+        out.append(read_class(c))
+    return out
+
+
+def mk_string(text, route="parse"):
+    """a PauliString with this text reached through a public route; 'edited' objects were used (hashed, iterated,
+    compared) under another text first and then edited in place"""
+    from paulie import PauliString
+    n = len(text)
+    if route == "parse" or n == 0:
+        return PauliString(pauli_str=text)
+    if route == "edited":
+        P = PauliString(pauli_str="".join({"I": "Y", "X": "Z", "Y": "I", "Z": "X"}[ch] for ch in text))
+        hash(P); {P: 1}; str(P); list(P); P == P.copy()
+        for i, ch in enumerate(text):
+            P[i] = ch
+        return P
+    if route == "edited-substring":
+        P = PauliString(pauli_str="Y" * n)
+        hash(P); P.get_index()
+        P.set_substring(0, text)
+        return P
+    if route == "inc":
+        P = PauliString(n=n)
+        hash(P)
+        idx = int("".join({"I": "00", "Z": "01", "X": "10", "Y": "11"}[ch] for ch in text), 2)
+        if idx <= 64:
+            for _ in range(idx):
+                P.inc()
+            return P
+    if route == "copy":
+        return mk_string(text, "edited").copy()
+    return PauliString(pauli_str=text)
+
+
+STRING_ROUTES = ["parse", "parse", "edited", "edited-substring", "inc", "copy"]
